@@ -2,8 +2,11 @@
    modelling/base_model.py (initial_guess_bounds, fit, rmse) and core/modelisotherm.py (branch selection in __init__,
    guess: best of the attempts that converged).  One definition, two carriers (RNum: theorems in Fit/FitTheorems.v,
    QNum: executed against the implementation by tools/props/c12.py on every run).
+   Bounds and guesses are dictionaries keyed by parameter NAME (association lists in the user's key order); the vectors handed to the
+   optimiser are built in param_names order by looking every name up (by_name).  The range that normalises the error is max - min of the
+   fitted quantity over the rows actually fitted (any row order).
    Not modelled: the optimiser itself, the model-specific initial_guess heuristics, verbose output / plotting. *)
-From Coq Require Import QArith ZArith List Bool.
+From Coq Require Import QArith ZArith String List Bool.
 From PG Require Import Lib.Num Lib.Py.
 Import ListNotations.
 
@@ -17,6 +20,34 @@ Section Fit.
     if nltb hi v then hi else g.
   Definition clamp_all (bounds : list (N * N)) (guess : list N) : list N :=
     map (fun bv => clamp (fst (fst bv)) (snd (fst bv)) (snd bv)) (combine bounds guess).
+
+  (* ---- BaseModel.__init__: the bounds in force. A non-empty user dictionary is taken as given (its own key order; every key must be a
+     parameter name, else ParameterError); otherwise dict(zip(param_names, param_default_bounds)) *)
+  Definition bdict := list (string * (N * N)).
+  Definition bounds_in_force (names : list string) (defaults : list (N * N)) (user : bdict) : res bdict :=
+    match user with
+    | [] => Ok (combine names defaults)
+    | _ => if forallb (fun kv => existsb (String.eqb (fst kv)) names) user then Ok user else Err ParameterError end.
+  (* fit(): [d[p] for p in param_names] - the vector in param_names order, every entry looked up BY NAME (KeyError when missing) *)
+  Fixpoint by_name {A} (names : list string) (d : list (string * A)) : res (list A) :=
+    match names with
+    | [] => Ok []
+    | n :: r => match assoc n d with
+                | None => Err KeyError
+                | Some b => bind (by_name r d) (fun br => Ok (b :: br)) end end.
+  (* initial_guess_bounds over a guess dictionary: every entry is trimmed to the bounds OF ITS NAME *)
+  Definition clamp_named (d : bdict) (guess : list (string * N)) : res (list (string * N)) :=
+    (fix go (g : list (string * N)) : res (list (string * N)) :=
+       match g with
+       | [] => Ok []
+       | (k, v) :: r => match assoc k d with
+                        | None => Err KeyError
+                        | Some b => bind (go r) (fun gr => Ok ((k, clamp (fst b) (snd b) v) :: gr)) end end) guess.
+
+  (* ---- ModelIsotherm.__init__: pressure_range / loading_range = (min, max) of the fitted rows, whatever their order *)
+  Fixpoint minl (a : N) (l : list N) : N := match l with [] => a | b :: r => minl (if nltb b a then b else a) r end.
+  Fixpoint maxl (a : N) (l : list N) : N := match l with [] => a | b :: r => maxl (if nltb a b then b else a) r end.
+  Definition range_of (l : list N) : N := match l with [] => z0 | a :: r => nsub (maxl a r) (minl a r) end.
 
   (* ---- fit: residual vector of the model at parameters x over the data, reported error *)
   Definition point := (N * N)%type.                      (* (pressure, loading) *)
@@ -39,6 +70,13 @@ Section Fit.
     match lsq (fun x => resid x data) x0 bounds with
     | None => Err CalculationError
     | Some (x, f) => Ok (x, f) end.
+
+  (* the range that normalises the error: of the loadings when the model calculates loading, of the pressures otherwise *)
+  Definition model_range (data : list point) : N := range_of (map (fun d => if calc_loading then snd d else fst d) data).
+  Definition reported_rmse_sq (data : list point) (fun_ : list N) : N := rmse_sq fun_ (length data) (model_range data).
+  (* fit with dictionaries: start vector and bound vectors in param_names order, by name *)
+  Definition fit_named (names : list string) (d : bdict) (guess : list (string * N)) (data : list point) : res (params * list N) :=
+    bind (by_name names guess) (fun x0 => bind (by_name names d) (fun bs => fit data x0 bs)).
 
   (* ---- ModelIsotherm.__init__: only the rows of the requested branch are fitted (0 = adsorption, 1 = desorption) *)
   Definition row := (point * bool)%type.
